@@ -663,16 +663,21 @@ def _sqnorm_cols(Rm):
 
 
 def _unit_direction(V, cplx):
-    """Rational parametrisation of the unit sphere (stereographic): every unit vector of R^2 / C^2 except one pole; with the
-    scale rho of either sign (see sc_cg) rho * u covers every non-zero vector."""
+    """Rational parametrisation of the whole unit sphere by homogeneous stereographic coordinates (no pole is missing):
+    R^2: u = (a^2 - b^2, 2ab) / (a^2 + b^2);  C^2 = R^4: u = (2 s0 g, 2 s1 g, 2 s2 g, |s|^2 - g^2) / (|s|^2 + g^2)."""
     if not cplx:
-        t = V.real("dir_t", default=0.5)
-        den = 1 + t * t
-        return [(1 - t * t) / den, 2 * t / den]
+        a, b = V.real("dir_a", default=1.0), V.real("dir_b", default=0.5)
+        den = a * a + b * b
+        if V.symbolic:
+            V.assume(den > 0, "CG: direction parameters not all zero")
+        return [(a * a - b * b) / den, 2 * a * b / den]
     s0, s1, s2 = V.real("dir_s0", default=0.5), V.real("dir_s1", default=-0.25), V.real("dir_s2", default=0.75)
+    g = V.real("dir_g", default=1.0)
     ss = s0 * s0 + s1 * s1 + s2 * s2
-    den = ss + 1
-    c = [2 * s0 / den, 2 * s1 / den, 2 * s2 / den, (ss - 1) / den]
+    den = ss + g * g
+    if V.symbolic:
+        V.assume(den > 0, "CG: direction parameters not all zero")
+    c = [2 * s0 * g / den, 2 * s1 * g / den, 2 * s2 * g / den, (ss - g * g) / den]
     if V.symbolic:
         return [C(c[0], c[1]), C(c[2], c[3])]
     return [complex(c[0], c[1]), complex(c[2], c[3])]
@@ -696,12 +701,11 @@ def sc_cg(V, P, cfg):
     z1 = None
     if rat:
         # pre-image for the square root in orth(z, normalize=True): the first preconditioned residual is z := rho * u with u a
-        # rationally parametrised unit vector and rho != 0, so |z| = |rho| is a rational function; np.sqrt returns the
-        # registered root after proving root^2 == argument.  z ranges over all non-zero vectors.
+        # rationally parametrised unit vector (whole sphere) and rho > 0, so |z| = rho is a rational function; np.sqrt
+        # returns the registered root after proving root^2 == argument.  z ranges over all non-zero vectors.
         u = _unit_direction(V, xc)
-        rho = V.real("rho", nonzero=True, default=1.5)
-        if V.symbolic:
-            roots.append(rho if rho > 0 else -rho)          # forks on the sign of rho
+        rho = V.real("rho", positive=True, default=1.5)
+        roots.append(rho)
         z1 = np.empty(shp, dtype=object if V.symbolic else (complex if xc else float))
         for i in range(n):
             z1[(i,) if sk == "v" else (i, 0)] = rho * u[i]
@@ -744,6 +748,8 @@ def sc_cg(V, P, cfg):
     else:
         prec = Preconditioner()
     Ain = _mk_sparse(V, A) if cfg.get("sparse", True) else A
+    if V.symbolic and rat:
+        V.c.witness_sampling = 6        # every constraint is rational now: feasible sides are often settled by a sample point
     if V.symbolic and ncol == 1 and cfg.get("inv_exact", True):
         from symx import oracles
         oracles.configure(inv_exact_1x1=True)       # p^H A p is 1x1 for a single right-hand side: inv is the reciprocal
@@ -777,7 +783,15 @@ def sc_cg(V, P, cfg):
         s = CG(Ain, preconditioner=prec, tol=tol, maxit=maxit, restart=restart)
         with warnings.catch_warnings(record=True) as wl:
             warnings.simplefilter("always")
-            x = s.solve(b.copy(), x0=(None if x0 is None else x0.copy()), trans=t)
+            try:
+                x = s.solve(b.copy(), x0=(None if x0 is None else x0.copy()), trans=t)
+            except ValueError as e:
+                if V.symbolic and cfg["prec"] == "free" and "at least one array" in str(e):
+                    # an arbitrary preconditioner output can cancel the search direction exactly (z = -p beta); a positive
+                    # definite preconditioner cannot (p^H r = 0 after the step): outside the abstraction
+                    from symx.ctx import PathAbort
+                    raise PathAbort("free preconditioner: zero search direction")
+                raise
         warned = any("Maximum iterations" in str(w_.message) for w_ in wl)
     finally:
         if restore is not None:
@@ -796,7 +810,9 @@ def sc_cg(V, P, cfg):
             fl = list(np.asarray(arr).flat)
             return len(fl) == len(bflat) and all(e is f for e, f in zip(fl, bflat))
         rs = [a_ for a_ in spy if not is_b(a_)]
-        P.holds("cg:residual-norm-observed", len(rs) >= 1 and len(rs) < len(spy), kind="cg:invariant")
+        if not rs and len(spy) >= 2:
+            rs = [spy[0]]       # x = 0: the initial residual b - A @ 0 consists of the very elements of b
+        P.holds("cg:residual-norm-observed", len(rs) >= 1 and len(spy) >= 2, kind="cg:invariant")
         if rs:
             P.arrays_eq("cg:invariant r==b-op(A)x", np.asarray(rs[-1]).reshape(n, ncol), res, kind=k + ":invariant")
         # (2) what the code tested last: returned without the max-iteration warning  =>  |r|^2 <= tol^2 |b|^2 for every
